@@ -45,6 +45,13 @@ def main(argv):
     error = None
     try:
         import_ofxtools()
+        # oracle self-tests: a broken oracle must never pass for 'held' (a violation found anyway still stands)
+        from vf.oracles import modelwalk, ref_checkdigit, ref_header, ref_sgml, ref_types, ref_validate
+        for o in (ref_sgml, ref_types, ref_header, ref_checkdigit, ref_validate, modelwalk):
+            try:
+                o.selftest()
+            except Exception as e:  # noqa
+                ctx.inconclusive_because(f"self-test of {o.__name__} failed: {e!r}"[:300])
         mod = importlib.import_module(f"vf.checks.{prop.lower()}")
         if replay_case is not None:
             mod.replay(ctx, replay_case["case"])
